@@ -471,6 +471,9 @@ def run(ctx) -> None:
              "resolved configurations are the same in every process only if resolving one component writes nothing into the description the "
              "next one is resolved from (effect analysis of FlowIRConcrete shared with C08: a write without invalidation, or a getter that "
              "hands out stored state which the resolver then interpolates in place)")
+    ctx.rule("C15.R13-positions-in-document-mappings-are-not-used", "equal documents may list the keys of a mapping in any order: dsl.py never uses the "
+             "POSITION of a key in a mapping field of the document (list(<model>.<mapping field>).index(..), a sort keyed by it) - traversal order comes "
+             "from the document's lists (execute) only")
     ctx.rule("C15.R11-loads-do-not-write-into-their-arguments", "configurationForExperiment mutates a dictionary / list parameter only when every reaching "
              "definition of the name at that point is a copy made by the function itself (dict(..), list(..), a literal, a value not derived from "
              "the parameter)")
@@ -769,3 +772,47 @@ def run(ctx) -> None:
             n12 += 1
     ctx.functions_analysed |= sub_ctx.functions_analysed
     ctx.floor("C15.R12-queries-do-not-write-the-description", n12, 25, "effect obligations re-used from the C08 analysis")
+
+    # ---------------- R13: positions in document mappings ---------------------------------------------------
+    dslm = ctx.repo.module("python/experiment/model/frontends/dsl.py")
+    map_fields: Set[str] = set()
+    for cn_, cls_ in dslm.classes.items():
+        for st_ in cls_.body:
+            if isinstance(st_, ast.AnnAssign) and isinstance(st_.target, ast.Name) and "Dict[" in source.src(st_.annotation):
+                map_fields.add(st_.target.id)
+    ctx.floor("C15.R13-positions-in-document-mappings-are-not-used", len(map_fields), 3, "mapping-typed fields of the pydantic models of dsl.py")
+
+    def is_map_field(e: ast.AST) -> bool:
+        return isinstance(e, ast.Attribute) and e.attr in map_fields
+
+    def map_ordered(fn_: ast.AST, e: ast.AST, depth: int = 0) -> bool:
+        """a sequence whose order is the key order of a mapping field of the document"""
+        if depth > 3:
+            return False
+        if isinstance(e, ast.Call):
+            cn_ = call_name(e) or ""
+            if cn_ in ("list", "tuple", "enumerate") and e.args and (is_map_field(e.args[0]) or map_ordered(fn_, e.args[0], depth + 1)):
+                return True
+            if last_attr(e) in ("keys", "items", "values") and is_map_field(e.func.value):
+                return True
+        if isinstance(e, (ast.ListComp, ast.GeneratorExp)) and e.generators and (
+                is_map_field(e.generators[0].iter) or map_ordered(fn_, e.generators[0].iter, depth + 1)):
+            return True
+        if isinstance(e, ast.Name):
+            return any(map_ordered(fn_, v, depth + 1) for v in match.assigned_value(fn_, e.id) if v is not e)
+        return False
+    n13 = 0
+    for q_, fn_ in dslm.functions.items():
+        for c_ in source.calls_in(fn_, include_nested=True):
+            if last_attr(c_) == "index" and isinstance(c_.func, ast.Attribute) and map_ordered(fn_, c_.func.value):
+                n13 += 1
+                ctx.analysed(fn_)
+                ctx.ob("C15.R13-positions-in-document-mappings-are-not-used", c_, False,
+                       "%s uses the position of a key in a mapping of the document (%s): two equal documents that list the keys of that mapping in a "
+                       "different order are traversed differently - duplicate step names are numbered ('work', 'work-I') and environments "
+                       "('env0', 'env1') in the order the scopes are met, so component names, command lines and memoization hashes differ" % (
+                           q_, short(c_, 60)),
+                       construct="%s: position in a document mapping" % q_)
+    ctx.ob("C15.R13-positions-in-document-mappings-are-not-used", dslm.tree, True,
+           "%d uses of a position in a document mapping found in dsl.py (mapping fields: %s)" % (n13, ", ".join(sorted(map_fields))),
+           construct="positions in document mappings in dsl.py", trivial=True)
